@@ -18,6 +18,9 @@
 // The label suffix after '|' lists the functions CALLED by the statement that has just completed when the
 // point is reached (header expressions only for if/for/range/switch; defer/go statements excluded), so the
 // parent process can tell from the crash log which file-system step was the last to complete.
+//
+// Additionally a point  VerifCrashPointOpen("<func>:<n>|~open", name, perm)  precedes every statement that calls
+// os.WriteFile(name, …, perm): the crash between the open(O_TRUNC) and the write of that call (see writeFileTargets).
 package main
 
 import (
@@ -144,11 +147,74 @@ func terminates(s ast.Stmt) bool {
 	return false
 }
 
+// A statement that calls os.WriteFile(name, data, perm) makes TWO system calls on `name`: open(O_WRONLY|O_CREATE|
+// O_TRUNC) and write.  The state between them (file exists, zero bytes) is a crash state of its own that no statement
+// boundary shows.  For every such statement an extra point  VerifCrashPointOpen("<func>:<n>|~open", name, perm)  is
+// inserted directly before it: when it is the point to die at, it performs exactly that open on the file the code is
+// ABOUT to write and exits.  Harmless when the target is a temp file that is renamed afterwards, fatal for a file
+// that is rewritten in place — the check decides "the file is replaced atomically", it does not know the site.
+// (os.OpenFile(…O_TRUNC…)/os.Create + Write need nothing: the boundary after the open statement is that state.)
+func writeFileTargets(s ast.Stmt) (targets [][2]ast.Expr) {
+	var hdr []ast.Node
+	switch t := s.(type) {
+	case *ast.IfStmt:
+		if t.Init != nil {
+			hdr = append(hdr, t.Init)
+		}
+		if t.Cond != nil {
+			hdr = append(hdr, t.Cond)
+		}
+	case *ast.ForStmt, *ast.RangeStmt, *ast.SwitchStmt, *ast.TypeSwitchStmt, *ast.SelectStmt, *ast.BlockStmt, *ast.LabeledStmt,
+		*ast.DeferStmt, *ast.GoStmt:
+		return nil
+	default:
+		hdr = []ast.Node{s}
+	}
+	for _, h := range hdr {
+		ast.Inspect(h, func(x ast.Node) bool {
+			switch c := x.(type) {
+			case *ast.FuncLit:
+				return false
+			case *ast.CallExpr:
+				sel, ok := c.Fun.(*ast.SelectorExpr)
+				if !ok || sel.Sel.Name != "WriteFile" || len(c.Args) != 3 {
+					return true
+				}
+				if id, ok := sel.X.(*ast.Ident); !ok || (id.Name != "os" && id.Name != "ioutil") {
+					return true
+				}
+				// the file name is evaluated a second time by the inserted call: it must be free of calls
+				var calls []string
+				callNames(c.Args[0], &calls)
+				callNames(c.Args[2], &calls)
+				if len(calls) == 0 {
+					targets = append(targets, [2]ast.Expr{c.Args[0], c.Args[2]})
+				}
+			}
+			return true
+		})
+	}
+	return targets
+}
+
+func (ci *crashInjector) openPoint(name, perm ast.Expr) ast.Stmt {
+	ci.n++
+	label := fmt.Sprintf("%s:%d|~open", ci.fn, ci.n)
+	var fun ast.Expr = ast.NewIdent("VerifCrashPointOpen")
+	if ci.utilsID != "" {
+		fun = &ast.SelectorExpr{X: ast.NewIdent(ci.utilsID), Sel: ast.NewIdent("VerifCrashPointOpen")}
+	}
+	return &ast.ExprStmt{X: &ast.CallExpr{Fun: fun, Args: []ast.Expr{&ast.BasicLit{Kind: token.STRING, Value: strconv.Quote(label)}, name, perm}}}
+}
+
 func (ci *crashInjector) list(L []ast.Stmt) []ast.Stmt {
 	var out []ast.Stmt
 	var prev ast.Stmt
 	for _, s := range L {
 		out = append(out, ci.point(prev))
+		for _, t := range writeFileTargets(s) {
+			out = append(out, ci.openPoint(t[0], t[1]))
+		}
 		ci.stmt(s)
 		out = append(out, s)
 		prev = s
@@ -413,6 +479,29 @@ func VerifCrashPoint(label string) {
 		_, _ = verifCrashLog.WriteString(strconv.FormatInt(n, 10) + " " + label + "\n")
 	}
 	if verifCrashAt > 0 && n == verifCrashAt {
+		os.Exit(77)
+	}
+	verifCrashMu.Unlock()
+}
+
+// VerifCrashPointOpen is the crash point BETWEEN THE TWO SYSTEM CALLS of an os.WriteFile(name, data, perm) that the
+// code is about to make: when it is the point to die at, the open(O_WRONLY|O_CREATE|O_TRUNC) of that call is
+// performed (the file exists and is empty, as it is before the write call) and the process terminates.
+func VerifCrashPointOpen(label string, name string, perm os.FileMode) {
+	if !verifCrashOn {
+		return
+	}
+	verifCrashMu.Lock()
+	verifCrashN++
+	n := verifCrashN
+	if verifCrashLog != nil {
+		_, _ = verifCrashLog.WriteString(strconv.FormatInt(n, 10) + " " + label + "\n")
+	}
+	if verifCrashAt > 0 && n == verifCrashAt {
+		f, err := os.OpenFile(name, os.O_WRONLY|os.O_CREATE|os.O_TRUNC, perm)
+		if err == nil {
+			_ = f.Close()
+		}
 		os.Exit(77)
 	}
 	verifCrashMu.Unlock()
